@@ -637,6 +637,8 @@ def _index_rules(chk, pid, S, fi, host, R):
             seen["mv"] += 1
             for gv, v, raws in sym.split_cases(w.value, raw=True):
                 gg = GX(w, gv, raws)
+                if sym.inconsistent(gg):
+                    continue
                 rr = lambda x: sym.restrict(x, gg)
                 v, lp, V, base = rr(v), rr(cur(w, SELF, LP)), rr(cur(w, SELF, R.VALUE)), rr(("+", cur(w, SELF, LV), cur(w, SELF, R.NET_FLOWS)))
                 zero_base = sym.lit_holds(gg, ("zero", sym._abs_norm(sym.to_rat(base))), True)
@@ -661,6 +663,8 @@ def _index_rules(chk, pid, S, fi, host, R):
             par = sym.num(chk.prog.const_value(CORE, "PAR") or 100.0)
             for gv, v, raws in sym.split_cases(w.value, raw=True):
                 gg = GX(w, gv, raws)
+                if sym.inconsistent(gg):
+                    continue
                 rr = lambda x: sym.restrict(x, gg)
                 v, lp, V, ln, N = rr(v), rr(cur(w, SELF, LP)), rr(cur(w, SELF, R.VALUE)), rr(cur(w, SELF, LN)), rr(cur(w, SELF, R.NOTIONAL))
                 base = rr(("+", cur(w, SELF, LV), cur(w, SELF, R.NET_FLOWS)))
@@ -771,14 +775,12 @@ def _bankruptcy(chk, pid, S, fi, host, R, the_val):
             not_bk = sym.lit_holds(g, fld(SELF, "bankrupt"), False)
             not_fi = sym.lit_holds(g, fld(SELF, "_fixed_income"), False)
             # sign region of val: some literal must say val < 0 (or <= 0 with not zero)
-            neg = False
-            for gv, v in sym.split_cases(the_val):
-                if not _consistent(g, gv):
-                    continue
-                lt = sym.lit_holds(g, canon(("cmp", "<", v, sym.ZERO)), True)
-                le_nz = sym.lit_holds(g, canon(("cmp", "<=", v, sym.ZERO)), True) and sym.lit_holds(g, ("zero", sym._abs_norm(sym.to_rat(v))), False)
-                neg = neg or lt or le_nz
-            extra = [l for l in g if not _bk_known(l, the_val)]
+            gw = G(w)
+            v = sym.restrict(the_val, gw)
+            lt = sym.lit_holds(gw, canon(("cmp", "<", v, sym.ZERO)), True)
+            le_nz = sym.lit_holds(gw, canon(("cmp", "<=", v, sym.ZERO)), True) and sym.lit_holds(gw, ("zero", sym._abs_norm(sym.to_rat(v))), False)
+            neg = lt or le_nz
+            extra = [l for l in plain(w.guard) if not _bk_known(l, the_val)]
             chk.ob("C16.R1", root_is_self, CORE, host, "bankrupt:root-only", "only the root strategy can be declared bankrupt", where=w.where, found=sym.fmt_guard(w.guard)[:200])
             chk.ob("C16.R1", not_fi, CORE, host, "bankrupt:not-fixed-income", "fixed-income strategies are never declared bankrupt", where=w.where)
             chk.ob("C16.R1", not_bk, CORE, host, "bankrupt:once", "bankruptcy is declared once (not while already bankrupt)", where=w.where)
@@ -1568,3 +1570,167 @@ def recursion_rules(chk, pid, which):
 
 def set_commissions_rules(chk, pid):
     recursion_rules(chk, pid, [("StrategyBase", "set_commissions", "commission_fn", True)])
+
+
+
+# ------------------------------------------------------------------------------------------------
+# C10: guards, division guards, termination guard, writable history views
+
+
+def nan_price_guard(chk, pid):
+    """C10.R1: a NaN price on an open position raises before the value and the rows are written."""
+    R = Roles(chk.prog)
+    for K in SEC_CLASSES:
+        fi = chk.prog.resolve(K, "update")
+        S = chk.summary(fi.module, fi.cls, "update", host=K)
+        host = "%s.update" % K
+        ws = [w for w in S.writes(R.VALUE, SELF)]
+        ok = bool(ws)
+        for w in ws:
+            p = cur(w, SELF, R.SPRICE)
+            q = cur(w, SELF, R.POSITION)
+            g = sym.sat(tuple(G(w)) + ((("isnan", canon(p)), True),))
+            if sym.inconsistent(g):
+                continue
+            ok = ok and sym.lit_holds(g, ("zero", sym._abs_norm(sym.to_rat(q))), True)
+        chk.ob("C10.R1", ok, fi.module, host, "guard:nan-price-open-position",
+               "whenever the value is recomputed with a NaN price the position is known to be zero: a NaN price on an open position raises instead of recording a wrong value",
+               where=fi.where, expected="raise under isnan(price) and not is_zero(position) on every path to the value write", found="%d value writes" % len(ws))
+        rs = [e for e in S.raises if any(a[0] == "isnan" for a, p_ in G(e) if p_)]
+        chk.ob("C10.R1", bool(rs), fi.module, host, "guard:nan-price-raises", "the NaN-price error is raised", where=fi.where)
+
+
+def division_guards(chk, pid):
+    """C10.R2: every division in the accounting engine has a denominator that is guarded against zero."""
+    R = Roles(chk.prog)
+    targets = [("StrategyBase", "update", ()), ("SecurityBase", "allocate", ("outlay", "transact", "update", "commission")), ("StrategyBase", "rebalance", ("close", "allocate", "transact", "update", "_create_child_if_needed"))]
+    n = 0
+    for cls, name, noinl in targets:
+        S = chk.summary(CORE, cls, name, host=cls, no_inline=noinl)
+        host = "%s.%s" % (cls, name)
+        seen = set()
+        for e in S.events:
+            vals = []
+            if e.kind == "write":
+                vals.append(e.value)
+            elif e.kind == "call":
+                vals.extend(e.args or [])
+            elif e.kind == "store":
+                vals.append(e.value)
+            for v in vals:
+                for nd, conds in _walk_conds(v, ()):
+                    if nd[0] == "/":
+                        den = nd[2]
+                        key = (canon(den), tuple(sorted((canon(c), p) for c, p in conds)))
+                        if key in seen:
+                            continue
+                        seen.add(key)
+                        if sym.to_rat(den).const_value() is not None:
+                            continue
+                        n += 1
+                        chk.site()
+                        extra = []
+                        for c, p in conds:
+                            extra.extend(sym.literals(c, p))
+                        g = G(e, extra=tuple(extra))
+                        if sym.inconsistent(g):
+                            continue
+                        ok = sym.lit_holds(g, ("zero", sym._abs_norm(sym.to_rat(den))), False)
+                        den_r = sym.restrict(den, g)
+                        if not ok:
+                            try:
+                                ok = sym.lit_holds(g, ("zero", sym._abs_norm(sym.to_rat(den_r))), False)
+                            except ZeroDivisionError:
+                                ok = False
+                        if not ok:
+                            factors = [a for a in sym.to_rat(den_r).atoms()]
+                            price_like = [a for a in factors if a[0] == "fld" and a[2] == R.SPRICE]
+                            if price_like and sym.lit_holds(g, ("zero", sym._abs_norm(sym.to_rat(price_like[0]))), False):
+                                ok = True
+                            if sym.contains(den_r, lambda x: x[0] in ("wl", "wlout")):
+                                ok = True
+                        chk.ob("C10.R2", ok, CORE, host, "division:%s" % short(den, 50), "a denominator in the accounting engine is tested against zero before the division", where=e.where,
+                               expected="not is_zero(denominator) on the path", found=short(den_r, 140), sample={"denominator": short(den_r, 100)})
+    chk.floor_count("C10.R2:divisions", n, 4)
+
+
+def _walk_conds(v, conds):
+    """Yield (node, enclosing phi conditions) for every node of a value."""
+    if not isinstance(v, tuple) or not v:
+        return
+    if isinstance(v[0], str):
+        yield v, conds
+        if v[0] == "ite" and len(v) == 4:
+            for x in _walk_conds(v[1], conds):
+                yield x
+            for x in _walk_conds(v[2], conds + ((v[1], True),)):
+                yield x
+            for x in _walk_conds(v[3], conds + ((v[1], False),)):
+                yield x
+            return
+    for y in v:
+        if isinstance(y, tuple):
+            for x in _walk_conds(y, conds):
+                yield x
+
+
+def sizing_loop_cap(chk, pid):
+    """C10.R3: every cycle of the sizing loop passes a counter increment and a cap test that raises (raise, not hang)."""
+    S = chk.summary(CORE, "SecurityBase", "allocate", host="SecurityBase", no_inline=("outlay", "transact", "update", "commission"))
+    host = "SecurityBase.allocate"
+    chk.need(S.while_loops, "%s no longer has a sizing loop" % host)
+    loop = S.while_loops[0]
+    body = loop.body_state
+    counters = [n for n in loop.names if body.locals.get(n) is not None and sym.equal(body.locals[n], ("+", ("wl", n, loop.lid), sym.ONE))]
+    ok = False
+    for e in S.raises:
+        if not (e.loops and e.loops[-1] is loop):
+            continue
+        for a, p in plain(e.guard):
+            if a[0] == "cmp" and any(sym.contains(a, lambda x, n=n: x == ("wl", n, loop.lid)) for n in counters):
+                rest = [l for l in plain(e.guard) if l not in plain(loop.guard0) and l != (a, p)]
+                ok = ok or not rest
+    chk.ob("C10.R3", ok and bool(counters), CORE, host, "iteration-cap", "the search for the quantity cannot hang: a counter is incremented on every cycle and a cap raises", where=S.fn.where,
+           expected="i = i + 1; if i > cap: raise", found="counters: %s" % counters)
+    pre = [loop.pre.get(n) for n in counters]
+    chk.ob("C10.R3", bool(pre) and all(v is not None and sym.to_rat(v).const_value() is not None for v in pre), CORE, host, "iteration-counter-initialised", "the counter starts from a constant", where=S.fn.where)
+
+
+def writable_history_views(chk, pid):
+    """C10.R4 T-RO: in-place history writes go through a view on which writing has been enabled (pandas >= 3 hands out read-only .values)."""
+    import importlib.metadata as md
+
+    try:
+        pv = md.version("pandas")
+    except Exception:
+        pv = None
+    major = int(pv.split(".")[0]) if pv else None
+    chk.note("installed pandas: %s" % pv)
+    setup_src = chk.prog.sources.get("setup.py", "")
+    excluded = "pandas<3" in setup_src.replace(" ", "") or "pandas<=2" in setup_src.replace(" ", "")
+    if major is None or major < 3 or excluded:
+        chk.note("T-RO not applicable: installed pandas %s does not hand out read-only views, or setup.py excludes it" % pv)
+        chk.ob("C10.R4", True, CORE, "<environment>", "read-only-views-not-applicable", "Series.values is writable under the installed pandas", sample={"pandas": pv})
+        return
+    n = 0
+    for K in SEC_CLASSES + ["StrategyBase"]:
+        fi = chk.prog.resolve(K, "update")
+        S = chk.summary(fi.module, fi.cls, "update", host=K)
+        host = "%s.update" % K
+        for e in S.events:
+            hs = hist_store(e)
+            hf = hist_fill(e)
+            if not hs and not hf:
+                continue
+            arr = e.base if hs else e.recv
+            n += 1
+            chk.site()
+            enabling = [w for w in S.events if w.kind == "write" and w.field == "writeable" and w.seq < e.seq and canon(w.value) == canon(sym.TRUE) and w.obj[0] == "attr" and w.obj[2] == "flags"
+                        and canon(w.obj[1]) == canon(arr)]
+            ok = bool(enabling)
+            sn = series_name(hs[0]) if hs else series_name(hf[0])
+            chk.ob("C10.R4", ok, fi.module, host, "writable-view:%s:%d" % (sn, e.line),
+                   "under the installed pandas (%s) Series.values is read-only: an in-place history write must go through a view on which writing was enabled" % pv, where=e.where,
+                   expected="flags.writeable = True on the very view that is written", found="direct write through a read-only view" if not ok else "enabled",
+                   sample={"series": sn, "pandas": pv})
+    chk.floor_count("C10.R4:in-place history writes", n, 15)
